@@ -120,6 +120,10 @@ def family(rng, idx):
         members.append((("case-scheme-twin", base), lambda: URL(SplitResult(sch, host, path, q[1:], f[1:]), encoded=True)))
     if host:
         members.append((("case-host-splitresult", base), lambda: URL(SplitResult(sch, host.upper(), path, q[1:], f[1:]), encoded=True)))
+    if host and "@" not in host:
+        # ... and the same NUMBER spelled differently in the stored authority (pre-encoded routes keep the written port text)
+        for ptxt in ("80", "080", "0080", "+80", "8" + "0", "9", "10"):
+            members.append((("port-spelling", ptxt), lambda ptxt=ptxt: URL(SplitResult(sch, host.rpartition("@")[2].split(":")[0] + ":" + ptxt if "[" not in host else host, path, q[1:], f[1:]), encoded=True)))
     members.append((("case-escapes", base), lambda: URL(SplitResult(sch, host, (path or "/") + "%2f%c3%a9", q[1:], f[1:]), encoded=True)))
     members.append((("case-escapes-upper", base), lambda: URL(SplitResult(sch, host, (path or "/") + "%2F%C3%A9", q[1:], f[1:]), encoded=True)))
     # non-round-trip: a DIFFERENT used source (built from text) is modified into the target value
